@@ -35,6 +35,9 @@ class Arith:
         self.scope = scope
         self.ufields = {}          # (type-head, field) -> source
         self.ret_u = {}            # fn id -> source description
+        self.param_u = {}          # (fn id, param local) -> source description (an unguarded untrusted argument at some call site)
+        self._collect_summaries()
+        self._collect_params()
         self._collect_summaries()
 
     # -- value classification -----------------------------------------------------------------
@@ -81,6 +84,8 @@ class Arith:
         for d in fl.defs.get(l, ()):
             if d[0] == "arg":
                 r = ("B", 255) if ty in ("u8", "&u8") else ("?", None)
+                if (fn.id, l) in self.param_u:
+                    r = ("U", self.param_u[(fn.id, l)])
             elif d[0] == "stmt":
                 st = fn.blocks[d[1]][0][d[2]]
                 if st[1][0] != l or (st[1][1] and not all(x == "*" for x in st[1][1])):
@@ -156,6 +161,12 @@ class Arith:
             return ("M", None) if "M" in (a[0], b[0]) else ("S", None)
         if k == "un":
             return self.classify(fn, rv[2], depth, seen)
+        if k in ("ref", "raw"):
+            # `&(*obj as Integer).0` (pattern binding by reference): the class of the referenced place
+            pl = rv[-1]
+            if depth > 0 and pl[1]:
+                return self._classify_place(fn, pl, depth - 1, seen)
+            return ("?", None)
         if k == "discr":
             return ("B", 255)
         if k == "agg":
@@ -272,7 +283,8 @@ class Arith:
                         if k in self.ufields or base_ty.startswith("("):
                             continue
                         c = self._classify_rvalue(fn, st[2], 14, set())
-                        if c[0] == "U":
+                        if c[0] == "U" and not any(self.guarded(fn, b, o) for o in FL.rvalue_operands(st[2]) if o[0] != "k"):
+                            # (a value range-checked before it is stored is a validated field, not an untrusted one)
                             self.ufields[k] = c[1]
                             changed = True
                     # aggregates: struct literal with U operand
@@ -286,11 +298,63 @@ class Arith:
                             for i, o in enumerate(rv[2]):
                                 if i < len(names) and (rv[1][1], names[i]) not in self.ufields:
                                     c = self.classify(fn, o, 14)
-                                    if c[0] == "U":
+                                    if c[0] == "U" and not self.guarded(fn, b, o):
                                         self.ufields[(rv[1][1], names[i])] = c[1]
                                         changed = True
             if not changed:
                 break
+
+    def _collect_params(self):
+        """integer parameters that receive an untrusted, unguarded value at some call site in scope (two rounds, so a value
+        handed on through one wrapper is still seen)"""
+        facts = self.facts
+        for rnd in range(2):
+            changed = False
+            for fid in self.scope:
+                fn = facts.fns.get(fid)
+                if fn is None:
+                    continue
+                for b, c, a, d, t, u in fn.calls():
+                    if not isinstance(c, dict):
+                        continue
+                    f2 = facts.fns.get(c.get("r"))
+                    if f2 is None or f2.id not in self.scope or f2.kind == "Closure":
+                        continue
+                    for i, op in enumerate(a):
+                        pl = 1 + i
+                        if pl > f2.nargs or (f2.id, pl) in self.param_u:
+                            continue
+                        if f2.locals[pl] not in ("usize", "u32", "u64", "i32", "i64", "u16", "i16", "isize"):
+                            continue
+                        cls = self.classify(fn, op)
+                        if cls[0] == "U" and not self.upper_guarded(fn, b, op):
+                            self.param_u[(f2.id, pl)] = "argument of %s at %s: %s" % (L.short(fn.parent or fn.id), fn.where(b), cls[1])
+                            changed = True
+            if not changed:
+                break
+
+    ALLOC_SIZE_ARG = {"with_capacity": 0, "from_elem": 1, "reserve": 1, "reserve_exact": 1, "resize": 1, "with_capacity_and_hasher": 0,
+                      "resize_with": 1}
+
+    def alloc_sites(self):
+        """yield (fn, block, callee short name, class, guarded) for every allocation whose size is an argument"""
+        facts = self.facts
+        for fid in sorted(self.scope):
+            fn = facts.fns.get(fid)
+            if fn is None:
+                continue
+            for b, c, a, d, t, u in fn.calls():
+                if not isinstance(c, dict):
+                    continue
+                p = c.get("p") or ""
+                nm = L.short(p)
+                if nm not in self.ALLOC_SIZE_ARG or not any(x in p for x in ("Vec", "String", "from_elem", "HashMap", "VecDeque", "HashSet")):
+                    continue
+                i = self.ALLOC_SIZE_ARG[nm]
+                if i >= len(a):
+                    continue
+                cls = self.classify(fn, a[i])
+                yield fn, b, nm, cls, (self.upper_guarded(fn, b, a[i]) if cls[0] == "U" else None)
 
     # -- sanitisation by a dominating comparison --------------------------------------------------
     def _roots(self, fn, locs):
@@ -333,11 +397,36 @@ class Arith:
             for st in fn.blocks[sb][0]:
                 rv = st[2]
                 if rv[0] == "bin" and rv[1] in ("Lt", "Le", "Gt", "Ge", "Eq", "Ne"):
+                    if rv[1] in ("Eq", "Ne") and (rv[2][0] == "k" or rv[3][0] == "k") and \
+                            not (FL.op_const(rv[2]) == 0 or FL.op_const(rv[3]) == 0):
+                        # `x == SENTINEL` (e.g. usize::MAX markers) bounds nothing on the other branch; `x == 0` / `x != 0`
+                        # is the usual divisor / emptiness test and stays a guard
+                        continue
                     if self._roots(fn, FL.op_locals(rv[2]) + FL.op_locals(rv[3])) & roots:
                         return True
             t = fn.term(sb)
             if t[0] == "sw" and sb != b and self._roots(fn, FL.op_locals(t[1])) & roots:
                 return True
+            if t[0] == "call" and L.is_call_to(t[1], ["PartialOrd::lt", "PartialOrd::le", "PartialOrd::gt", "PartialOrd::ge", "contains"]):
+                if any(self._roots(fn, FL.op_locals(a)) & roots for a in t[2]):
+                    return True
+        return False
+
+    def upper_guarded(self, fn, b, op):
+        """an *upper* bound on the operand's value dominates b: an ordered comparison (<, <=, >, >=) between the value (or what it
+        was computed from) and something other than the constants 0 / -1 / 1, or min/clamp/try_from in its derivation"""
+        g = CF.cfg(fn)
+        roots = self._roots(fn, FL.op_locals(op))
+        for sb in g.dominators(b):
+            for st in fn.blocks[sb][0]:
+                rv = st[2]
+                if rv[0] == "bin" and rv[1] in ("Lt", "Le", "Gt", "Ge"):
+                    ka, kb = FL.op_const(rv[2]), FL.op_const(rv[3])
+                    if (isinstance(ka, int) and ka in (0, 1, -1)) or (isinstance(kb, int) and kb in (0, 1, -1)):
+                        continue
+                    if self._roots(fn, FL.op_locals(rv[2]) + FL.op_locals(rv[3])) & roots:
+                        return True
+            t = fn.term(sb)
             if t[0] == "call" and L.is_call_to(t[1], ["PartialOrd::lt", "PartialOrd::le", "PartialOrd::gt", "PartialOrd::ge", "contains"]):
                 if any(self._roots(fn, FL.op_locals(a)) & roots for a in t[2]):
                     return True
@@ -372,6 +461,12 @@ class Arith:
                     elif any(c[0] == "?" for c in cls):
                         verdict = "undecided"
                 elif us:
+                    if kind == "Overflow:Sub" and len(ops) == 2 and cls[1][0] != "U":
+                        # `untrusted - bounded`: underflows only when the untrusted value is *small*, which its being
+                        # file-controlled does not by itself make reachable (e.g. `n - bytes.len()` right after pushing at most
+                        # one byte when n > 0): not decided here
+                        yield fn, b, kind, cls, "undecided", ""
+                        continue
                     ung = [(o, c) for o, c in us if not self.guarded(fn, b, o)]
                     if ung:
                         verdict, detail = "refuted", "operand is an untrusted integer (%s) with no dominating range check" % ung[0][1][1]
